@@ -208,7 +208,53 @@ def run(tier="quick", seed=0):
                     break
             record(t2, bad, None, "seq", minimised_before_in_the_same_process=[[sorted(int(x) for x in e.route), e.key, e.mask] for e in t1])
         distinct.add(("s", tuple(keys1), tuple(keys2)))
+    # (f) merges that have to be shrunk: three exact 5-bit entries with one route (a merge candidate), an entry of generality 3
+    #     with another route that the full merge would cover in part (so the down-check must drop a member, the shrunken merge is
+    #     less general and moves UP the table) and an entry of generality 2 with a third route that can end up below it; all
+    #     orthogonal.  921 600 such tables; a seeded 2% (thorough: 25%) of them
+    B5, F5 = 5, 31
+
+    def inter5(a, b):
+        return (a[0] ^ b[0]) & a[1] & b[1] == 0
+    pats5 = [(k, m) for m in range(32) for k in range(32) if k & ~m == 0]
+    g2 = [q for q in pats5 if bin(q[1]).count("1") == 3]
+    g3 = [q for q in pats5 if bin(q[1]).count("1") == 2]
+    frac = 0.02 if tier == "quick" else 0.25
+    rN, rE, rC = routes[0], routes[1], routes[2]
+    for tri in itertools.combinations(range(32), 3):
+        mem = [(k, F5) for k in tri]
+        anyo, allo = 0, F5
+        for k, _m in mem:
+            anyo |= k
+            allo &= k
+        fmask = ~(anyo ^ allo) & F5
+        full = (allo & fmask, fmask)
+        for blk in g3:
+            if any(inter5(blk, x) for x in mem) or not inter5(blk, full):
+                continue
+            for itf in g2:
+                if rng.random() > frac or any(inter5(itf, x) for x in mem) or inter5(itf, blk):
+                    continue
+                ents = sorted([(q, rN) for q in mem] + [(itf, rE), (blk, rC)], key=lambda pr: B5 - bin(pr[0][1]).count("1"))
+                table = [RTE(r, q[0], q[1], {None}) for q, r in ents]
+                ev += 1
+                try:
+                    new = ordered_covering.minimise(list(table), None)
+                except Exception as e:      # noqa
+                    record(table, "ordered_covering.minimise raised %s" % type(e).__name__, None, "shrink")
+                    continue
+                bad = None
+                for key in range(32):
+                    e = lookup(table, key)
+                    if e is None:
+                        continue
+                    nn = lookup(new, key)
+                    if nn is None or nn.route != e.route:
+                        bad = "ordered_covering.minimise: key %d routed to %s, was %s" % (key, None if nn is None else sorted(nn.route), sorted(e.route))
+                        break
+                record(table, bad, None, "shrink")
+        distinct.add(("shrink", tri))
     return {"name": "c04_tables", "evaluations": ev, "distinct_nontrivial": len(distinct),
-            "rule": "the empty table; every orthogonal table over 3 key bits with <= %d entries (x%d random route/source dressings and orders); overlapping tables with <= %d entries in generality order (and in arbitrary order for default-route removal); seeded random generality-ordered tables over 5 bits with 2..10 entries; targets None, 0, len-1, len, len+1; through remove_default_routes.minimise, ordered_covering.minimise, minimise_table, minimise_tables; sequences (tables over 4 bits whose merged output entries reappear below other entries in the next table minimised in the same process); oracle: first match + hardware default routing + sources listed" % (nmax, reps, nmax_o),
+            "rule": "the empty table; every orthogonal table over 3 key bits with <= %d entries (x%d random route/source dressings and orders); overlapping tables with <= %d entries in generality order (and in arbitrary order for default-route removal); seeded random generality-ordered tables over 5 bits with 2..10 entries; targets None, 0, len-1, len, len+1; through remove_default_routes.minimise, ordered_covering.minimise, minimise_table, minimise_tables; merges that must be shrunk (three exact 5-bit entries + a generality-3 and a generality-2 entry of other routes, orthogonal: a seeded 2 or 25 percent of 921 600); sequences (tables over 4 bits whose merged output entries reappear below other entries in the next table minimised in the same process); oracle: first match + hardware default routing + sources listed" % (nmax, reps, nmax_o),
             "bound": "3 key bits exhaustive up to the stated sizes; 5 bits sampled", "exhaustive": False, "label": "bounded",
             "samples": samples, "violations": viol, "seconds": round(time.time() - t0, 2)}
